@@ -1,15 +1,17 @@
 (* C10 - Copyright field line ranges locate exactly the field's content (partial: proved -
-   where recorded ranges come from, that they are tight for the field, that numbers increase
-   across fields and paragraphs, and the shift law for the WHOLE copyright object including
-   merged unknown paragraphs and folded licenses, for every text in which each paragraph has
-   a field with a value, and how ranges compose through merge (span of the merged paragraphs)
-   and fold (from the License field or the start of the unknown paragraph to its end).  Not
-   assembled into one statement: that in the final object every range of a valued field is
-   within 1..#lines and that ranges of different fields are disjoint and increasing across the
-   merged and folded paragraphs - decided by co-execution and by the executable statement). *)
+   for EVERY text and the FINAL object (after renaming, merging of unknown paragraphs and folding
+   into an empty license): the ranges of fields with a non-empty value are within 1..#lines, have
+   start <= end, are disjoint and increasing in source order within and across paragraphs, and
+   each starts on the first content line of a field with a value and ends on the last line of
+   such a field (C10_final_object); where recorded ranges come from; that they are tight for the
+   field; the shift law for the whole object for every text in which each paragraph has a field
+   with a value; how ranges compose through merge and fold.  Not assembled into one statement:
+   that every WORD of a value of the final object occurs in lines start..end (proved per field
+   for the lines of the field, C05/C11; decided for the final object by the executable
+   statement), and the shift law for paragraphs in which no field has a value). *)
 From Coq Require Import String.
 From Coq Require Import NArith List Bool Sorted.
-From DI Require Import Result PyStr Deb822 Debcon Copyright Deb822Facts CopyrightFacts RangeFacts Dep5Facts ShiftFacts.
+From DI Require Import Result PyStr Deb822 Debcon Copyright Deb822Facts CopyrightFacts RangeFacts Dep5Facts ConserveFacts ShiftFacts RangeFinal.
 Import ListNotations.
 Open Scope N_scope.
 
@@ -78,6 +80,49 @@ Theorem C10_paragraph_span : forall p, p_lines p <> [] ->
   forall kv, In kv (p_lines p) -> fst (first_last p) <= fst (snd kv) /\ snd (snd kv) <= snd (first_last p).
 Proof. exact first_last_spans. Qed.
 Print Assumptions C10_paragraph_span.
+
+(* THE FINAL OBJECT, every text.  final_ranges ps lists, paragraph after paragraph and in the order
+   of line_numbers_by_field, the ranges recorded for the names whose value in the dictionary form is
+   not empty.  They increase strictly and never overlap (end of one < start of the next), lie inside
+   the text with start <= end, and each starts on the first content line of a field with a value and
+   ends on the last line of a field with a value - through renaming of duplicates, merging of
+   unknown paragraphs and folding of free text into an empty license. *)
+Theorem C10_final_object : forall t ps, from_text t = Ok ps ->
+  StronglySorted (fun a b : N * N => snd a < fst b) (final_ranges ps) /\
+  Forall (fun r : N * N => 1 <= fst r /\ fst r <= snd r /\ snd r <= N.of_nat (length (text_lines t))) (final_ranges ps) /\
+  exists gs, groups t = Ok gs /\
+    forall r, In r (final_ranges ps) ->
+      exists f g, In f (all_live gs) /\ In g (all_live gs) /\ fst r = first_content_line f /\ snd r = last_line g.
+Proof. exact from_text_final. Qed.
+Print Assumptions C10_final_object.
+
+(* final_ranges is what it says: per paragraph, the recorded ranges whose name has a non-empty value *)
+Example C10_final_ranges_def : forall ps,
+  final_ranges ps =
+  flat_map (fun p => flat_map (fun kv : str * (N * N) =>
+              if nonempty (lookup (fst kv) (para_to_dict p)) then [snd kv] else []) (p_lines p)) ps.
+Proof. reflexivity. Qed.
+
+Example C10_final_object_recovery_paths :
+  let t := lit "junk one
+junk two
+
+more junk
+
+License:
+
+folded text
+
+Foo:
+
+Files: *
+Copyright: x
+License:
+
+ text
+" in
+  rmap final_ranges (from_text t) = Ok [(1, 4); (8, 8); (12, 12); (13, 13); (16, 16)].
+Proof. vm_compute. reflexivity. Qed.
 
 Example C10_shift_recovery_paths :
   let t := lit "junk one
